@@ -749,6 +749,33 @@ func (m *Model) RunScope(s *Sink, rule string) {
 					okBind = true
 				}
 			}
+			// bound through a helper shared with other constructs (`e.setVar(node, scope, name, val)`): the scope handed
+			// to a module function that calls Set on that very parameter
+			for _, b := range h.Blocks {
+				for _, in := range b.Instrs {
+					c, ok := in.(*ssa.Call)
+					if !ok || c.Call.StaticCallee() == nil || !m.InModule(c.Call.StaticCallee()) || c.Call.StaticCallee().Blocks == nil {
+						continue
+					}
+					g := c.Call.StaticCallee()
+					for _, sc := range callsTo(g, "object", "Set") {
+						for k, gp := range g.Params {
+							if sc.Call.Args[0] != ssa.Value(gp) || k >= len(c.Call.Args) {
+								continue
+							}
+							all := true
+							for _, r := range m.resolveUp(c.Call.Args[k], fn, 0) {
+								if !isFresh(r) {
+									all = false
+								}
+							}
+							if all {
+								okBind = true
+							}
+						}
+					}
+				}
+			}
 		}
 		okArgs = okArgs && nArgs > 0
 		if okArgs && okBind {
@@ -1278,16 +1305,42 @@ func (m *Model) RunEvalState(s *Sink, rule string) {
 			}
 		}
 	}
+	// a counter step: field = field ± const. A nesting depth is stepped up and down again; a counter that is only ever
+	// stepped one way is a budget shared by everything the evaluator evaluates
+	stepOf := func(w fw) int {
+		fname := fieldName(w.st.Addr.(*ssa.FieldAddr).X.Type(), w.fld)
+		if bo, ok := w.st.Val.(*ssa.BinOp); ok && (bo.Op == token.ADD || bo.Op == token.SUB) && isInteger(bo.Type()) {
+			if k, isK := bo.Y.(*ssa.Const); isK && k.Value != nil {
+				if _, p, okP := pathOf(bo.X); okP && strings.HasSuffix(p, "."+fname) {
+					sign := constant.Sign(k.Value)
+					if bo.Op == token.SUB {
+						sign = -sign
+					}
+					return sign
+				}
+			}
+		}
+		return 0
+	}
+	ups, downs := map[int]bool{}, map[int]bool{}
+	for _, w := range writes {
+		switch stepOf(w) {
+		case 1:
+			ups[w.fld] = true
+		case -1:
+			downs[w.fld] = true
+		}
+	}
 	bad := 0
 	for _, w := range writes {
 		fname := fieldName(w.st.Addr.(*ssa.FieldAddr).X.Type(), w.fld)
-		// a counter step: field = field ± const
-		if bo, ok := w.st.Val.(*ssa.BinOp); ok && (bo.Op == token.ADD || bo.Op == token.SUB) && isInteger(bo.Type()) {
-			if _, isK := bo.Y.(*ssa.Const); isK {
-				if _, p, okP := pathOf(bo.X); okP && strings.HasSuffix(p, "."+fname) {
-					continue
-				}
+		if st := stepOf(w); st != 0 {
+			if ups[w.fld] && downs[w.fld] {
+				continue
 			}
+			bad++
+			s.Violation(rule, fmt.Sprintf("%s|steps the evaluator's counter %s one way only", fnKey(w.fn), fname), m.InstrPos(w.st), "%s steps the field %s of the evaluator and nothing steps it back: the count is shared by everything this evaluator evaluates, so what a later construct does (how many passes a later loop makes) depends on what was evaluated before it", fnKey(w.fn), fname)
+			continue
 		}
 		bad++
 		s.Violation(rule, fmt.Sprintf("%s|writes the evaluator's field %s", fnKey(w.fn), fname), m.InstrPos(w.st), "%s writes the field %s of the evaluator while evaluating: what a later construct evaluates to then depends on what was evaluated before it (a flag set by one loop and reset when an inner loop ends changes the meaning of @break / @continue for the rest of the outer loop)", fnKey(w.fn), fname)
